@@ -148,6 +148,12 @@ func cmdCheck(args []string) {
 	tot := struct{ paths, dec, oblig, disch, nontriv, queries, sat, unsat, unknown int }{}
 	solverS := 0.0
 	exhaustive := true
+	knownSigs := map[string]bool{}
+	for _, f := range loadFindings() {
+		if f.Status == "open" && f.Property == *prop {
+			knownSigs[f.Signature] = true
+		}
+	}
 	for _, r := range runs {
 		fn := ld.hp.Func(r.Fn)
 		if fn == nil {
@@ -162,7 +168,7 @@ func cmdCheck(args []string) {
 			budget, _ = time.ParseDuration(r.Budget)
 		}
 		ex := interp.NewExplorer(ld.prog, interp.RunConfig{Fn: fn, Name: r.Fn, Params: r.Params, Explore: r.Explore, PB: pb, Race: r.Race,
-			Workers: *workers, Budget: budget, SolverArgv: solverArgv(), Seed: seed, MaxSamples: maxSamples, Unwind: r.Unwind, MaxCross: maxCross})
+			Workers: *workers, Budget: budget, SolverArgv: solverArgv(), Seed: seed, MaxSamples: maxSamples, Unwind: r.Unwind, MaxCross: maxCross, KnownSigs: knownSigs})
 		ex.Run()
 		sched := "seq"
 		if r.Explore {
